@@ -96,7 +96,26 @@ impl Connector for LoadBalanceConnector {
                 n
             );
         }
+        // selecting a member must terminate: reject load balancers that contain themselves
+        let mut stack: Vec<&str> = self.connectors.iter().map(String::as_str).collect();
+        let mut seen = std::collections::HashSet::new();
+        while let Some(n) = stack.pop() {
+            ensure!(
+                n != self.name,
+                "connector {} must not contain itself, directly or through other load balancers",
+                self.name
+            );
+            if seen.insert(n) {
+                if let Some(c) = state.connectors.get(n) {
+                    stack.extend(c.members().iter().map(String::as_str));
+                }
+            }
+        }
         Ok(())
+    }
+
+    fn members(&self) -> &[String] {
+        &self.connectors
     }
 
     async fn connect(
